@@ -147,6 +147,8 @@ func (n *onode) flow(r *rand.Rand) string {
 		return fmt.Sprint(n.i)
 	case "bool":
 		return fmt.Sprint(n.b)
+	case "null":
+		return []string{"~", "null", "Null"}[r.Intn(3)]
 	case "seq":
 		parts := []string{}
 		for _, it := range n.items {
@@ -188,7 +190,7 @@ func (n *onode) block(r *rand.Rand, b *strings.Builder, indent int, step int) {
 			comment()
 			v := n.vals[i]
 			switch {
-			case v.kind == "str" || v.kind == "int" || v.kind == "bool":
+			case v.kind == "str" || v.kind == "int" || v.kind == "bool" || v.kind == "null":
 				trail := ""
 				if r.Intn(7) == 0 {
 					trail = "   # trailing"
@@ -205,7 +207,7 @@ func (n *onode) block(r *rand.Rand, b *strings.Builder, indent int, step int) {
 		for _, it := range n.items {
 			comment()
 			switch {
-			case it.kind == "str" || it.kind == "int" || it.kind == "bool" || r.Intn(4) == 0:
+			case it.kind == "str" || it.kind == "int" || it.kind == "bool" || it.kind == "null" || r.Intn(4) == 0:
 				b.WriteString(pad + "- " + it.flow(r) + "\n")
 			case it.kind == "map" && len(it.keys) > 0:
 				// "- key: value" with the rest of the mapping aligned under the first key
@@ -495,7 +497,7 @@ func yamlShape(n *yaml3.Node) string {
 
 func C15(e *core.Env) {
 	res := e.Res
-	res.Rule = "cases = (profile, rewriting): profiles with 2-4 validations over the three levels built from the C01 formula generator (every connective, nested / atLeast / atMost, all atom kinds, sequence / alternative / inverse paths, messages with placeholders), each rewritten k times (quick 6, thorough 30) by composing: a random permutation of the entries of EVERY mapping, of every level list and of every and/or operand list, consistent renaming of prefixes to fresh names, use of alias prefixes bound to the same namespace, three quoting styles where the tag is preserved, flow vs block style per sub-tree, indentation 2/3/4, comments, blank lines, document marker; every variant is validated on the same graphs and must give the same conforms flag and the same set of (severity, validation, focus, message); the IRI expander is compared with the model on the compact IRIs used; the repository's 29 integration fixtures and 3 hand-written profiles (two expression keywords in one body, five-operand or / and lists with multi-branch operands over two prefixes) are rewritten the same way (3 / 10 variants quick, 12 / 40 thorough); " +
+	res.Rule = "cases = (profile, rewriting): profiles with 2-4 validations over the three levels built from the C01 formula generator (every connective, nested / atLeast / atMost, all atom kinds, sequence / alternative / inverse paths, messages with placeholders), each rewritten k times (quick 6, thorough 30) by composing: a random permutation of the entries of EVERY mapping, of every level list and of every and/or operand list, consistent renaming of prefixes to fresh names, use of alias prefixes bound to the same namespace, three quoting styles where the tag is preserved, flow vs block style per sub-tree, indentation 2/3/4, comments, blank lines, document marker; every variant is validated on the same graphs and must give the same conforms flag and the same set of (severity, validation, focus, message); the IRI expander is compared with the model on the compact IRIs used; the repository's 29 integration fixtures and 5 hand-written profiles (embedded Rego setting $message in one of several operands, two expression keywords in one body, five-operand or / and lists with multi-branch operands over two prefixes, level lists with stray null / number / boolean entries) are rewritten the same way (3 / 10 variants quick, 12 / 40 thorough); " +
 		"non-trivial = the original profile reports at least one result on some graph; distinct by variant text"
 	rc := config.DefaultReportConfiguration()
 	k := e.Pick(6, 30)
@@ -801,6 +803,8 @@ func fromYaml(n *yaml3.Node, key string) *onode {
 		return &onode{kind: "bool", b: n.Value == "true"}
 	case "!!str":
 		return &onode{kind: "str", s: n.Value}
+	case "!!null":
+		return &onode{kind: "null"}
 	}
 	return nil // floats, nulls ...: the fixture is skipped
 }
@@ -1125,6 +1129,9 @@ func c15Text(e *core.Env, rc config.ReportConfiguration, summary func(string) (s
 func yamlSx(n *yaml3.Node) (sx.V, bool) {
 	switch n.Kind {
 	case yaml3.ScalarNode:
+		if n.Tag == "!!null" {
+			return sx.L(sx.A("scalar"), sx.S(n.Tag), sx.S("")), true // ~, null, Null and an empty entry are one value
+		}
 		return sx.L(sx.A("scalar"), sx.S(n.Tag), sx.S(n.Value)), true
 	case yaml3.SequenceNode:
 		items := []sx.V{sx.A("seq")}
@@ -1342,13 +1349,102 @@ validations:
 `,
 }
 
+// level lists holding stray entries that are not names (an entry left empty after commenting a name out, a number, a
+// boolean): the parser skips them wherever they stand
+const c15HandStray = `profile: Stray entries
+prefixes:
+  ex: http://example.org/ns#
+  zz: http://example.org/zz#
+violation:
+  - needs-a
+  - ~
+  - needs-b
+warning:
+  - 404
+  - needs-c
+  - true
+  - needs-a
+info:
+  -
+  - needs-b
+validations:
+  needs-a:
+    targetClass: ex.T
+    message: a
+    propertyConstraints:
+      ex.a:
+        minCount: 1
+  needs-b:
+    targetClass: ex.T
+    message: b
+    propertyConstraints:
+      zz.b:
+        minCount: 1
+  needs-c:
+    targetClass: ex.T
+    message: c
+    propertyConstraints:
+      ex.c:
+        minCount: 1
+`
+
+// embedded Rego that sets the message ($message) next to operands that do not, under two prefixes and in two operand orders
+const c15HandRegoMessage = `profile: Rego message
+prefixes:
+  ex: http://example.org/ns#
+  zz: http://example.org/zz#
+violation:
+  - b-or-a
+  - two-regos
+warning:
+  - and-of-regos
+validations:
+  b-or-a:
+    message: b or a expected
+    targetClass: ex.T
+    or:
+      - propertyConstraints:
+          zz.b:
+            rego: |
+              $message = "b must be exactly y when there is no a"
+              $result = ($node == ["y"])
+      - propertyConstraints:
+          ex.a:
+            rego: |
+              $result = (count($node) > 3)
+  two-regos:
+    targetClass: ex.T
+    or:
+      - rego: |
+          cs = object.get($node, "http://example.org/ns#c", [])
+          $result = (count(cs) > 5)
+      - rego: |
+          bs = object.get($node, "http://example.org/zz#b", [])
+          $message = "custom message of the second operand"
+          $result = (count(bs) > 5)
+  and-of-regos:
+    targetClass: ex.T
+    message: plain
+    not:
+      and:
+        - propertyConstraints:
+            ex.c:
+              rego: |
+                $result = (count($node) > 0)
+        - propertyConstraints:
+            zz.b:
+              rego: |
+                $message = "both c and b"
+                $result = (count($node) > 0)
+`
+
 func c15HandWritten(e *core.Env, rc config.ReportConfiguration, summary func(string) (string, int), defaults []sx.V, mkGraph func(*rand.Rand) Graph) {
 	datas, dnames := []string{}, []string{}
 	for i := 0; i < e.Pick(3, 8); i++ {
 		datas = append(datas, mkGraph(e.Rand).JSONLD())
 		dnames = append(dnames, fmt.Sprintf("generated graph %d", i))
 	}
-	for i, p := range c15Hand {
+	for i, p := range append(append([]string{}, c15Hand...), c15HandStray, c15HandRegoMessage) {
 		c15Text(e, rc, summary, defaults, fmt.Sprintf("hand-written profile %d", i), "harness/props/c15.go c15Hand", "hand-written", "#%Validation Profile 1.0\n"+p, datas, dnames, e.Pick(10, 40))
 	}
 }
